@@ -276,8 +276,8 @@ func checkC16(p *core.Program, r *core.Report) {
 			}
 		}
 	}
-	r.Floor("encoder field copies", 12)
-	r.Floor("decoder error sites", 12)
+	r.Floor("encoder field copies", 10)
+	r.Floor("decoder error sites", 6)
 	r.Floor("index fields", 2)
 	// ---- number parser and convention
 	checkNumberCodec(p, r, eng, ix)
